@@ -4,7 +4,8 @@ from .. import gens
 from ..gens import sig_fields, pkt_fields
 from .C01 import sig_from_pkt, perturb
 
-RULE = ("find ops: (direction, max_dist, packet signature, request records, response records); records are drawn from "
+RULE = ("API level (histq ops): database TEXT with specific / generic / user-app records that match the probe exactly, fuzzily (quirks / TTL) or not at all, in random order, "
+        "split over repeated and interleaved section headers, loaded with Database.load and probed with fingerprint_tcp on wire bytes at several max_dist values. find ops: (direction, max_dist, packet signature, request records, response records); records are drawn from "
         "{specific, generic, user-app} x signatures derived from the probe packet (exact / fuzzy-ttl / fuzzy-quirk / miss variants), any order, "
         "duplicates allowed. Observable: (record line, match type, distance). Exhaustive: all orderings of the 5-record set; guess_distance for all 256 TTLs. "
         "Non-trivial = some record matches (answer is not 'none').")
@@ -41,8 +42,77 @@ def variant(r, p, kind):
     return s
 
 
+def api_level(ctx):
+    """database TEXT (records in random order, section headers repeated and interleaved) + wire packets through fingerprint_tcp"""
+    import struct
+    from .. import wiregen
+    r = ctx.rng
+    hx = lambda t: t.encode().hex()
+    ops = []
+    for _ in range(ctx.n(6000, 120000)):
+        flags = r.choice([0x02, 0x12])
+        ttl = r.choice([64, 60, 57, 30, 31, 32, 33, 29, 100, 128, 1])
+        opts = b"\x02\x04\x05\xb4\x01\x03\x03\x07"
+        tcp = wiregen.tcp_header(r, flags=flags, opts=opts, payload=b"", seq=5, ack=0 if flags == 2 else 7, urp=0, win=8192, res=0)
+        df = r.choice([0, 2])
+        tos = r.choice([0, 0, 1])
+        pkt = wiregen.ipv4(r, tcp, ipopts=b"", tos=tos, ident=77, fl=df, ttl=ttl)
+        pq = ",".join((["ecn"] if tos else []) + (["df", "id+"] if df else []))
+        kinds = []
+        for _k in range(r.choice([0, 1, 2, 3, 4, 6, 9])):
+            kinds.append(r.choice(["exact-s", "exact-g", "fq", "fq-app", "fttl", "fttl-app", "miss", "exact-app", "bad-ttl"]))
+        recs = []
+        for k in kinds:
+            sttl = r.choice([64, 64, 60, 128, 255, 32])
+            q = pq
+            lay = "mss,nop,ws"
+            lab = r.choice(["s:unix:A:1", "s:win:B:", "s:unix:C:x y"])
+            sysl = None
+            if k == "exact-g":
+                lab = "g:unix:G:"
+            if k.endswith("-app"):
+                lab = "s:!:App:1"
+                sysl = "@unix"
+            if k.startswith("fq"):
+                if tos:
+                    q = "df,id+" if df else ""                   # ecn extra in the packet: tolerated
+                elif not df:
+                    q = r.choice(["df,id+", "df"])                # df / id+ missing in the packet: tolerated
+                else:
+                    q = "df"                                     # id+ extra in the packet is not tolerated -> a near miss
+            if k.startswith("fttl"):
+                sttl = r.choice([128, 255, 200])
+            if k == "miss":
+                lay = "mss,nop,ws,nop"
+            t = f"{sttl}-" if k == "bad-ttl" else str(sttl)
+            recs.append((lab, sysl, f"*:{t}:0:*:*,*:{lay}:{q}:0"))
+        sec = "tcp:request" if flags == 2 else "tcp:response"
+        other = "tcp:response" if flags == 2 else "tcp:request"
+        lines = []
+        cur = None
+        for lab, sysl, sig in recs:
+            want = sec if r.random() < 0.85 else other
+            if cur != want or r.random() < 0.15:
+                if r.random() < 0.2:
+                    lines += ["[mtu]", "label = x", "sig = 1500"]
+                lines.append(f"[{want}]")
+                cur = want
+            lines.append("label = " + lab)
+            if sysl:
+                lines.append("sys = " + sysl)
+            lines.append("sig = " + sig)
+            if r.random() < 0.2:
+                lines.append("sig = " + sig.replace("mss,nop,ws", "mss,nop,ws,sok"))
+        if r.random() < 0.9 and not any(l == f"[{sec}]" for l in lines):
+            lines.append(f"[{sec}]")
+        ops.append("histq\tL:" + hx("\n".join(lines) + "\n") + f"\tT:4:{pkt.hex()}:0:{r.choice([35, 35, 35, 0, 4, 255])}")
+    ctx.correspond(ops, nontrivial=lambda l, a: " ; " in a and not a.split(" ; ")[1].startswith(("none", "ERR")), label="api-db-text",
+                   tagger=lambda l, a: (a.split(" ; ")[1].split(" ")[1] if " ; " in a and len(a.split(" ; ")[1].split(" ")) == 3 else a.split(" ; ")[-1][:10]))
+
+
 def run(ctx):
     r = ctx.rng
+    api_level(ctx)
     nt = lambda l, a: not a.startswith("none")
     # exhaustive orderings of the 5-record set, both directions
     ops = []
